@@ -42,6 +42,17 @@ def gen_cases(tier, seed):
             c.pop('prehistory', None)
             k2 = len(c['spec']['statuses'])
             c['IC'] = [r.randrange(k2) for _ in range(g['n'])]
+        g0 = c['graph']
+        if sim in ('Gillespie_SIS', 'Gillespie_SIR', 'fast_SIS', 'fast_SIR') and not g0.get('directed') and not g0.get('big') and g0['n'] >= 2 and r.random() < 0.2:
+            # self-loops (nx.Graph(nx.configuration_model(...)) keeps them; the library's own examples run on such graphs)
+            g0 = dict(g0)
+            loops = [[i, i] for i in r.sample(range(g0['n']), r.randint(1, 2))]
+            g0['edges'] = [list(e) for e in g0['edges']] + loops
+            if g0.get('ew'):
+                g0['ew'] = {a_: list(ws) + [1.0] * len(loops) for a_, ws in g0['ew'].items()}
+            c['graph'] = g0
+            c.pop('prehistory', None)
+            c['selfloops'] = True
         if sim == 'Gillespie_simple_contagion' and r.random() < 0.4 and len(c['spec']['statuses']) >= 2:
             # only some statuses are reported (SEIR reporting S, I, R): the transmission list still has every induced change
             k2 = len(c['spec']['statuses'])
@@ -80,6 +91,10 @@ def check_log(call, sim_obj, case, res, key):
             continue
         n_src += 1
         bump(res, 'entries_checked')
+        if u == v and call.model != 'generic':
+            # the source is infectious and the target susceptible immediately before t: one node cannot be both
+            viol(res, '%s|node_recorded_as_infecting_itself' % call.sim, {'entry': [t, repr(u), repr(v)]})
+            continue
         if not G.has_edge(u, v):
             viol(res, '%s|along_edge' % call.sim, {'entry': [t, repr(u), repr(v)], 'directed': G.is_directed()})
             continue
@@ -144,6 +159,8 @@ def run_case(case):
         viol(res, '%s|exception:%s' % (case['sim'], simcase.exc_key(e)), {'err': repr(e)})
         return res
     bump(res, 'runs:' + call.sim)
+    if case.get('selfloops'):
+        bump(res, 'runs_on_graphs_with_self_loops')
     if case.get('return_idx') is not None and case['sim'] == 'Gillespie_simple_contagion' and len(case['return_idx']) < len(case['spec']['statuses']):
         bump(res, 'runs_reporting_a_strict_subset_of_statuses')
     n_src = check_log(call, out, case, res, call.sim)
